@@ -15,7 +15,8 @@ backoff_on_oserror = backoff.on_exception(backoff.fibo, OSError, max_tries=5)
 
 class Local(Backend):
     def __init__(self, connection_string):
-        self.path = Path(connection_string)
+        # NOTE: list_files slices listed paths by the length of this path
+        self.path = Path(connection_string).absolute()
 
     @backoff_on_oserror
     def exists(self, name):
